@@ -331,6 +331,14 @@ def check_dist (c):
         g ['taper'] = None
     if any ('p' in s for s in spec ['src']):
         return dict (status = 'discard', reason = 'no feed by location')
+    # tapered wires: pulses of very different length on one object (sources sit on other wires)
+    srcpts = [np.array (x ['at']) for x in spec ['src']]
+    for g in spec ['geo']:
+        if g ['k'] == 'w' and g ['n'] >= 3 and rng.random () < 0.3:
+            p1, p2 = np.array (g ['p1']), np.array (g ['p2'])
+            on = any (np.linalg.norm (np.cross (p2 - p1, x - p1)) < 1e-9 * np.linalg.norm (p2 - p1) ** 2 and -1e-9 <= (x - p1) @ (p2 - p1) / ((p2 - p1) @ (p2 - p1)) <= 1 + 1e-9 for x in srcpts)
+            if not on:
+                g ['taper'] = [int (rng.integers (1, 4)), None, None]
     ntag  = len (spec ['geo'])
     loads = []
     par   = {}
